@@ -13,6 +13,7 @@ ops (written by `harness/cmd/c12/mw`):
   `chg af|at|rt` / `elt …` / `mapply`   `ok` / `ok` / `ok|err|partial`     MergedChange
   `snapshot`                            `h<k>`
   `reads live|s<k>`                     spec-level dump      `geom live|s<k>`   model-level dump
+  `spatial live|s<k>`                   `<query>|<found>|<matching> …`: spatial search vs brute force on the real world → `propfail spatial-search-complete`
   `tworld` / `taddtag <id> <k=v>` / `tsnapshot` / `treads t|ts<k>`   MutableTagsOverlayWorld
   `<feature>` = `<id> pt:<lat>:<lng>|path:<ids>|area:<ids>|rel:<ids>|col:<ids> [k=kind:str …]`
 
@@ -247,6 +248,8 @@ def worldOf (st : St) (name : String) : Option (View × Option (List Id × List 
 def step (st : St) (op impl : String) : St × Verdict :=
   match words op with
   | "root" :: ws =>
+    -- a root line after a world was created starts a new world (several worlds in one corpus block)
+    let st : St := if st.store.isSome || st.tstore.isSome then {} else st
     match parseFeature ws with
     | none => (st, .bad)
     | some f =>
@@ -370,6 +373,28 @@ def step (st : St) (op impl : String) : St × Verdict :=
       | some (_, some first) =>
         if impl != first then (st, .propfail "snapshot-changed geom")
         else if impl != m then (st, .diff m) else (st, .ok)
+  | ["spatial", _] =>
+    -- real code only (the model carries tag tokens, not S2 cell tokens): every word is
+    -- `<query>|<ids the search found>|<ids that match by brute force>`; the search must be complete,
+    -- and (as the iterators filter by `Matches`) return nothing else
+    let parse (w : String) : Option (String × List Id × List Id) :=
+      match w.splitOn "|" with
+      | [n, r, b] => do
+        let r ← parseIds r
+        let b ← parseIds b
+        some (n, r, b)
+      | _ => none
+    match (words impl).mapM parse with
+    | none => (st, if impl == "panic" then .propfail "spatial-search-complete (panic)" else .bad)
+    | some qs =>
+      match qs.find? (fun q => q.2.2.any (fun x => !q.2.1.contains x)) with
+      | some q => (st, .propfail ("spatial-search-complete: " ++ q.1 ++ " misses " ++
+          idList (q.2.2.filter (fun x => !q.2.1.contains x))))
+      | none =>
+        match qs.find? (fun q => q.2.1.any (fun x => !q.2.2.contains x)) with
+        | some q => (st, .propfail ("spatial-search-exact: " ++ q.1 ++ " returns non-matching " ++
+            idList (q.2.1.filter (fun x => !q.2.2.contains x))))
+        | none => (st, .ok)
   | ["tworld"] =>
     ({ st with tstore := some ⟨st.root, [[]]⟩ }, if impl == "ok" then .ok else .diff "ok")
   | ["taddtag", id, t] =>
